@@ -439,9 +439,9 @@ def run_copy_case(case, ctx):
         if origin in ('fil', 'h5'):
             p = ctx.path('o.fil')
             if g['ascending']:
-                ref_sigproc.write_fil(p, content, g['fch1'] * 1e-6, g['df'] * 1e-6, g['dt'], source_name='SRC_A')
+                ref_sigproc.write_fil(p, content, g['fch1'] * 1e-6, g['df'] * 1e-6, g['dt'], source_name='SRC_A', extra={'telescope_id': 9, 'machine_id': 3, 'rawdatafile': 'orig.raw'})
             else:
-                ref_sigproc.write_fil(p, content[:, ::-1], g['fch1'] * 1e-6, -g['df'] * 1e-6, g['dt'], source_name='SRC_A')
+                ref_sigproc.write_fil(p, content[:, ::-1], g['fch1'] * 1e-6, -g['df'] * 1e-6, g['dt'], source_name='SRC_A', extra={'telescope_id': 9, 'machine_id': 3, 'rawdatafile': 'orig.raw'})
             fr = stg.Frame(waterfall=p, seed=case['seed'])
             if origin == 'h5':
                 p2 = ctx.path('o.h5')
@@ -463,6 +463,25 @@ def run_copy_case(case, ctx):
     obs.nontrivial = True
     fr.add_metadata({'tag': [1, 2, 3], 'note': 'x'})
     before = _frame_state(fr)
+
+    def wf_header(f):
+        w = getattr(f, 'waterfall', None)
+        if w is None:
+            return None
+        return {k: (v.decode() if isinstance(v, bytes) else (float(v) if isinstance(v, (int, float, np.floating, np.integer)) else str(v)))
+                for k, v in dict(w.header).items()}
+    hdr_before = wf_header(fr)
+
+    def hdr_diff(h0, h1):
+        bad = []
+        for k, v in h0.items():
+            w = h1.get(k)
+            if isinstance(v, float) and isinstance(w, float):
+                if abs(v - w) > 1e-9 * max(abs(v), 1e-300):      # fch1/foff/tsamp/tstart are rewritten from the frame (ulp-level)
+                    bad.append(k)
+            elif v != w:
+                bad.append(k)
+        return bad
     how = case['how']
     if how == 'copy':
         ok, c = core.call(obs, f'copy[{origin}]', fr.copy)
@@ -477,6 +496,17 @@ def run_copy_case(case, ctx):
     d = _state_diff(before, _frame_state(fr))
     if d:
         obs.fail(f'original_changed_by_{how}:{d}', origin)
+    if hdr_before is not None:
+        # a frame that carried a Waterfall (loaded from a file, or after get_waterfall) keeps it, unchanged
+        hdr_after = wf_header(fr)
+        if hdr_after is None:
+            obs.fail(f'original_lost_waterfall_by_{how}', origin)
+        elif hdr_diff(hdr_before, hdr_after):
+            obs.fail(f'original_waterfall_header_changed_by_{how}', f'{origin}: {hdr_diff(hdr_before, hdr_after)[:4]}')
+        if how == 'copy':
+            hc = wf_header(c)
+            if hc is None or hdr_diff(hdr_before, hc):
+                obs.fail('copy_waterfall_header_differs', f'{origin}: {[] if hc is None else hdr_diff(hdr_before, hc)[:4]}')
     d = _state_diff(before, _frame_state(c))
     if d:
         obs.fail(f'{how}_differs:{d}', origin)
